@@ -578,6 +578,31 @@ lblOuter:
 		mk("padliteral", "	z := \"" + strings.Repeat("A", 127) + "B\"\n	if a > len(z) {\n		return len(z), z\n	}\n	return a, x + z[:1]"),
 		mk("longunicode", "	z := \"" + strings.Repeat("a", 127) + "\u00e9\u00e9 tail of a long literal\"\n	u := \"second-literal\"\n	if b > 0 {\n		return len(z), u\n	}\n	return len(u), z[:3] + y"),
 		mk("hugeliteral", "	z := \"" + strings.Repeat("xy", 2600) + "\"\n	return len(z) + a, z[:2] + x"),
+		// long literals made of 3-byte runes behind 0, 1 and 2 ASCII bytes: whatever byte offset a
+		// length cap cuts at, it falls inside a rune in two of the three
+		mk("cjk0", "	z := \"" + strings.Repeat("\u4e16\u754c", 45) + "\"\n	u := \"second-literal\"\n	if b > 0 {\n		return len(z), u\n	}\n	return len(u), z[:3] + y"),
+		mk("cjk1", "	z := \"a" + strings.Repeat("\u4e16\u754c", 45) + "\"\n	u := \"second-literal\"\n	if b > 0 {\n		return len(z), u\n	}\n	return len(u), z[:4] + y"),
+		mk("cjk2", "	z := \"ab" + strings.Repeat("\u4e16\u754c", 45) + "\"\n	u := \"second-literal\"\n	if b > 0 {\n		return len(z), u\n	}\n	return len(u), z[:5] + y"),
+		mk("explicitstep", `	t := 0
+	i := a
+	for i < b+4 {
+		t = t + i
+		i = i + 2
+	}
+	return t, y`),
+		mk("reseedloop", `	t := 0
+	i := 0
+	if b > 1 {
+		i = a
+	}
+	for ; i < 6; i++ {
+		t += i
+	}
+	return t, x`),
+		mk("dupexpr", `	t := a * b
+	c := (t + 1) * (t + 1)
+	d := (t - 2) * (t - 2)
+	return c + d, x`),
 		mk("callargs", `	c := sub2(a, b)
 	d := sub2(b, len(s))
 	return c*10 + d, x`),
